@@ -21,7 +21,7 @@ func (c06) ID() string { return "C06" }
 func (c06) Rule() string {
 	return "histories of 6..25 statements over 5 variables: bind array/map literals of sizes 0..20 (dense around the 8-element and 4-pair thresholds), b = a, pass to a function that mutates its parameter, store inside another container, " +
 		"a[i] = v, m[k] = v, m.k = v, a = a + [v], a = a + v, c = a + b, del(m[k]), slices, rest(), append to a slice, the same inside loops; after EVERY statement every live variable is read back from the real session and compared with a value-semantics reference model " +
-		"(immutable values). Only the first divergence of a history is reported, classified by the statement that caused it. non-trivial = history with >=1 copy and >=1 later mutation; distinct = distinct history texts."
+		"(immutable values), and every observed map is checked for repeated keys; results of functions returning large containers as map keys or elements, keys taken out with first(m).key; scripted expectations for values the interpreter hands out (info, iteration over a map that is changed by the loop body, rest and range slices of large maps). Only the first divergence of a history is reported, classified by the statement that caused it. non-trivial = history with >=1 copy and >=1 later mutation; distinct = distinct history texts."
 }
 func (c06) NumBatches(tier string) int {
 	if tier == "thorough" {
@@ -35,7 +35,9 @@ func (c06) Assumptions() []string {
 }
 
 type c06Case struct {
-	Stmts []string `json:"statements"`
+	Stmts  []string          `json:"statements"`
+	Expect map[string]string `json:"expect,omitempty"`
+	Sig    string            `json:"sig,omitempty"`
 }
 
 type c06Step struct {
@@ -338,6 +340,9 @@ func (p c06) check(c *fw.Ctx, steps []c06Step) (sig, detail string, nontrivial b
 			if o.isErr {
 				return "observe-error:" + st.op, fmt.Sprintf("after statement %d %q reading %s fails: %s", k, src, v, outStr(o)), true
 			}
+			if why := corruptVal(o.val, 0); why != "" {
+				return "corrupt:" + st.op, fmt.Sprintf("after statement %d %q variable %s is not a map any more: %s", k, src, v, why), true
+			}
 			if !gt.Same(want, o.val) {
 				size := "small"
 				switch {
@@ -532,6 +537,13 @@ func (p c06) one(c *fw.Ctx, steps []c06Step) {
 
 func (p c06) RunBatch(c *fw.Ctx) {
 	InitGrol(nil)
+	for i, sc := range c06Scripts {
+		if i%c.NBatches == c.Batch {
+			c.Begin(c06Case{Stmts: sc.stmts})
+			p.scripted(c, sc.stmts, sc.expect, sc.sig)
+			c.Count("scripted_cases", 1)
+		}
+	}
 	n := c.Pick(1200, 30000)
 	for i := 0; i < n; i++ {
 		steps := p.history(c)
@@ -559,19 +571,41 @@ func (p c06) ReplayCase(c *fw.Ctx, input json.RawMessage) {
 	if err := json.Unmarshal(input, &cs); err != nil {
 		return
 	}
+	p.scripted(c, cs.Stmts, cs.Expect, cs.Sig)
+}
+
+// scripted runs statements and compares the printed form of some variables afterwards.
+func (p c06) scripted(c *fw.Ctx, stmts []string, expect map[string]string, sig string) {
 	c.Eval(1)
 	ss := newSession(false)
-	for _, s := range cs.Stmts {
+	for _, s := range stmts {
 		ss.eval(s, 3*time.Second)
 	}
-	for v, want := range cs.Expect {
+	for v, want := range expect {
 		o := ss.eval(v, time.Second)
 		if o.isErr || gt.Inspect(o.val) != want {
-			sig := "inplace:idxassign:big"
-			if cs.Sig != "" {
-				sig = cs.Sig
+			if sig == "" {
+				sig = "inplace:idxassign:big"
 			}
-			c.Violate("inplace", sig, c06Case{Stmts: cs.Stmts}, fmt.Sprintf("variable %s is %s, value semantics give %s", v, outStr(o), want))
+			c.Violate("inplace", sig, c06Case{Stmts: stmts, Expect: expect, Sig: sig}, fmt.Sprintf("variable %s is %s, value semantics give %s", v, outStr(o), want))
+			return
 		}
 	}
+	c.ShapeH(fnv64(strings.Join(stmts, "\x01")))
+}
+
+// c06Scripts: bindings of values the interpreter itself hands out (info, iteration pairs) are values too.
+var c06Scripts = []struct {
+	stmts  []string
+	expect map[string]string
+	sig    string
+}{
+	{[]string{"x = info", "n0 = len(x.globals)", "zznew = 1", "y = info", "same = len(x.globals) == n0"}, map[string]string{"same": "true"}, "scripted:info-shared"},
+	{[]string{"x = info", "x.foo = 1", "z = info", "nofoo = z.foo == nil"}, map[string]string{"nofoo": "true"}, "scripted:info-shared"},
+	{[]string{"x = info", "n0 = len(x)", "del(x.version)", "z = info", "same = len(z) == n0"}, map[string]string{"same": "true"}, "scripted:info-shared"},
+	{[]string{"func fi() {i1 = info; loc = 1; i2 = info; [len(i1.stack[0]), len(i2.stack[0])]}", "r = fi()"}, map[string]string{"r": "[0,2]"}, "scripted:info-shared"},
+	{[]string{"m = {1: 1, 2: 2, 3: 3, 4: 4, 5: 5, 6: 6}", "seen = []", "for kv = m {if kv.key == 1 {del(m[2])}; seen = seen + kv.key}"}, map[string]string{"seen": "[1,2,3,4,5,6]", "m": "{1:1,3:3,4:4,5:5,6:6}"}, "scripted:loop-snapshot"},
+	{[]string{"m = {1: 1, 2: 2, 3: 3, 4: 4}", "seen = []", "for kv = m {if kv.key == 1 {del(m[2])}; seen = seen + kv.key}"}, map[string]string{"seen": "[1,2,3,4]", "m": "{1:1,3:3,4:4}"}, "scripted:loop-snapshot"},
+	{[]string{"m = {1: 1, 2: 2, 3: 3, 4: 4, 5: 5, 6: 6}", "seen = []", "for kv = m {if kv.key == 1 {m[0] = 0; m[7] = 7}; seen = seen + kv.key}"}, map[string]string{"seen": "[1,2,3,4,5,6]"}, "scripted:loop-snapshot"},
+	{[]string{"m = {1: 1, 2: 2, 3: 3, 4: 4, 5: 5, 6: 6, 7: 7}", "r = m[1:7]", "del(m[1])", "r[0] = 0", "q = rest(r)", "del(r[3])"}, map[string]string{"m": "{2:2,3:3,4:4,5:5,6:6,7:7}", "r": "{0:0,2:2,4:4,5:5,6:6,7:7}", "q": "{2:2,3:3,4:4,5:5,6:6,7:7}"}, "scripted:rest-shared"},
 }
